@@ -489,8 +489,9 @@ def pdom_pair(ctx, prog, R):
         # the old pair handed to f is built from the old output *and* the taken old input
         a0 = expr(F, fcall[0].args[1], du)
         old = a0[2][0] if a0[0] == "agg" and a0[2] else ("?",)
-        pair_ok = old[0] == "call" and old[1].endswith("Option::and_then") and old[2][0] == ("arg", 2)
-        takes = False
+        pair_ok = (old[0] == "call" and old[1].endswith("Option::and_then") and old[2][0] == ("arg", 2)) or \
+            (old[0] != "call" and mentions(old, lambda x: x == ("arg", 2)))     # the same pairing written as a `match`
+        takes = mentions(old, lambda x: x[0] == "call" and x[1].endswith("Option::take"))
         for cp in closure_paths(old):
             for H in prog.with_closures(prog.fn(cp)):
                 if q.calls_in(H, "Option::take"):
